@@ -165,10 +165,10 @@ def rule_rsl(ctx):
                 for v in ext_dom:
                     for s_ in (64, 2 ** 14, 2 ** 14 + 1):
                         for p in (64, 2 ** 14):
-                            env = {E: v, S: s_, P: p}
+                            env = {E: v, S: s_, P: p, "__fn__": fi.node}
                             got = ev(n.value, env)
                             if got != spec(env):
-                                bad = (env, got, spec(env))
+                                bad = ({k_: v_ for k_, v_ in env.items() if not k_.startswith("__")}, got, spec(env))
             except Unknown as u:
                 raise AnalysisError("C01.RSL: limit expression `%s` in %s uses unmodelled operand %s"
                                     % (norm(n.value), fi.qname, u))
@@ -349,6 +349,30 @@ def rule_fifo(ctx):
               "buffered bytes", ra.loc())
 
 
+def rule_own(ctx):
+    """the record layer protects records by in-place `data += ...`; the application's buffer must
+    therefore never be the object that travels down (writeAsync wraps it in a fresh bytearray)."""
+    R = "C01.OWN"
+    fi = ctx.index.func(TLSREC + "writeAsync")
+    calls = [c for c in calls_in(fi.node) if call_name(c) == "create" and "ApplicationData()" in norm(c.func)]
+    ok = len(calls) == 1 and len(calls[0].args) == 1 and isinstance(calls[0].args[0], ast.Call) and \
+        call_name(calls[0].args[0]) == "bytearray" and norm(calls[0].args[0].args[0]) == "s"
+    ctx.check(R, ok, fi.qname, "writeAsync copies the caller's data into a fresh bytearray",
+              "writeAsync must hand a private copy (bytearray(s)) to the record layer: the protect functions "
+              "extend their buffer in place (`data += mac`, `data += content type`), so passing the caller's "
+              "bytearray through would append protocol bytes to it and corrupt a re-sent buffer",
+              fi.loc(calls[0]) if calls else fi.loc())
+    # the in-place extensions exist (this is what makes the copy necessary)
+    sr = ctx.index.func(RECLAYER + "sendRecord")
+    aug = [x for x in own_nodes(sr.node) if isinstance(x, ast.AugAssign) and norm(x.target) == "data"]
+    ctx.check(R, len(aug) >= 1, sr.qname, "sendRecord extends the message buffer in place (why the copy matters)",
+              "sendRecord no longer extends `data` in place; re-confirm the ownership rule", sr.loc())
+    ad = ctx.index.func("messages:ApplicationData.write")
+    ret = [x for x in own_nodes(ad.node) if isinstance(x, ast.Return)]
+    ctx.check(R, len(ret) == 1 and norm(ret[0].value) == "self.bytes", ad.qname,
+              "ApplicationData.write returns its own buffer (no copy)", "re-confirm the ownership rule", ad.loc())
+
+
 def rule_shared(ctx):
     c01shared.rule_seq(ctx, "C01.SEQ")
     c01shared.rule_dir(ctx, "C01.DIR")
@@ -362,5 +386,6 @@ RULES = [
     ("C01.RSL", "quick", rule_rsl),
     ("C01.SPLIT", "quick", rule_split),
     ("C01.FIFO", "quick", rule_fifo),
+    ("C01.OWN", "quick", rule_own),
     ("C01.SHARED", "quick", rule_shared),
 ]
